@@ -206,8 +206,8 @@ class Gear:
             return self.tc.execute(name, self)
         return None
 
-    def _advance(self, bank):
-        if self.dtr0 < 0xFF and (bank is None or bank.advance_dtr0):
+    def _advance(self, bank, writing=False):
+        if self.dtr0 < 0xFF and (bank is None or bank.should_advance(writing)):
             self.dtr0 += 1
 
     def _mem_read(self):
@@ -223,5 +223,5 @@ class Gear:
         if bank is None or not self.write_enabled:
             return None
         v = bank.write(self.dtr0, value)
-        self._advance(bank)
+        self._advance(bank, True)
         return v if reply else None
